@@ -11,7 +11,7 @@ ITYPES = [("i8", 1, True), ("u8", 1, False), ("i16", 2, True), ("u16", 2, False)
 UN_X = ["op++", "op--", "op++post", "op--post", "op++old", "op--old", "op+u"]
 UN = ["neg", "abs", "incr", "decr", "sign", "op-u"]
 BIN = ["add", "sub", "mul", "min", "max", "fmin", "fmax", "sadd", "ssub", "avg", "avgr", "op+", "op-", "op*"]
-BIN_X = ["op+=", "op-=", "op*="]
+BIN_X = ["op+=", "op-=", "op*=", "land", "lor"]
 DIV = ["divmod", "op/%"]
 TER = ["fma", "fms", "fnma", "fnms"]
 MSK = ["incr_if", "decr_if"]
